@@ -33,6 +33,11 @@ static vector<Tpl> templates() {
                      [=](const VD &x, const VD &y, const VD &, const VD &) { const VD &p = P(x, y); return max(fabs(p[1] - p[0] - 25), fabs(p[2] - p[1] - 25)); }, 2});
         T.push_back({"MultiSeparation " + ds + " a0,a1 minsep 18", [=](vpsc::Rectangles &, vector<CompoundConstraint *> &extra) -> CompoundConstraint * { AlignmentConstraint *a0 = new AlignmentConstraint(D), *a1 = new AlignmentConstraint(D); a0->addShape(0, 0); a1->addShape(1, 0); extra.push_back(a0); extra.push_back(a1); MultiSeparationConstraint *m = new MultiSeparationConstraint(D, 18, false); m->addAlignmentPair(a0, a1); return m; },
                      [=](const VD &x, const VD &y, const VD &, const VD &) { const VD &p = P(x, y); return max(0.0, -(p[1] - p[0] - 18)); }, 1});
+        // ... and as an EQUALITY (the optional third constructor argument): the guide lines exactly 18 apart; over two pairs (a0,a1),(a1,a2) exactly 18 each
+        T.push_back({"MultiSeparation " + ds + " a0,a1 sep 18 ==", [=](vpsc::Rectangles &, vector<CompoundConstraint *> &extra) -> CompoundConstraint * { AlignmentConstraint *a0 = new AlignmentConstraint(D), *a1 = new AlignmentConstraint(D); a0->addShape(0, 0); a1->addShape(1, 0); extra.push_back(a0); extra.push_back(a1); MultiSeparationConstraint *m = new MultiSeparationConstraint(D, 18, true); m->addAlignmentPair(a0, a1); return m; },
+                     [=](const VD &x, const VD &y, const VD &, const VD &) { const VD &p = P(x, y); return fabs(p[1] - p[0] - 18); }, 1});
+        T.push_back({"MultiSeparation " + ds + " a0,a1 and a1,a2 sep 22 ==", [=](vpsc::Rectangles &, vector<CompoundConstraint *> &extra) -> CompoundConstraint * { AlignmentConstraint *a0 = new AlignmentConstraint(D), *a1 = new AlignmentConstraint(D), *a2 = new AlignmentConstraint(D); a0->addShape(0, 0); a1->addShape(1, 0); a2->addShape(2, 0); extra.push_back(a0); extra.push_back(a1); extra.push_back(a2); MultiSeparationConstraint *m = new MultiSeparationConstraint(D, 22, true); m->addAlignmentPair(a0, a1); m->addAlignmentPair(a1, a2); return m; },
+                     [=](const VD &x, const VD &y, const VD &, const VD &) { const VD &p = P(x, y); return max(fabs(p[1] - p[0] - 22), fabs(p[2] - p[1] - 22)); }, 2});
     }
     // the public setters: the constraint is constructed with one value and given another through setSeparation() BEFORE the first layout (and, in the histories,
     // a third one between two layouts); the value in force is whatever the last setter call said
